@@ -1,0 +1,11 @@
+//go:build verif
+
+package pattern
+
+// Contracts for govc (see /verif/DESIGN.md). Comment-only file: contributes no code.
+
+// ---- C10: the centralised matcher is a function of (name, pattern) alone: no state is read or written and
+// every callee is a deterministic string function. Callers then know res == pure!MatchesGlob(s, pattern).
+//@ func MatchesGlob
+//@   property C10
+//@   functional
